@@ -77,12 +77,12 @@ class ScaleAndShift(Reparameterisation):
             self._update = False
 
         if self.estimate_scale:
-            self.scale = {p: 1.0 for p in parameters}
+            self.scale = {p: 1.0 for p in self.parameters}
         elif scale:
             self.scale = self._check_value(scale, "scale")
 
         if self.estimate_shift:
-            self.shift = {p: 0.0 for p in parameters}
+            self.shift = {p: 0.0 for p in self.parameters}
         elif shift:
             self.shift = self._check_value(shift, "shift")
         else:
